@@ -161,7 +161,7 @@ def evaluation_pipeline(ctx, repo, rule):
     cfg = K.cfg(repo, of, raise_model="calls")
 
     def stmt_of(pred):
-        return [s for s in own_nodes(of.node) if isinstance(s, (ast.Expr, ast.Assign)) and pred(ast.unparse(s.value))]
+        return [s for s in own_nodes(of.node) if isinstance(s, (ast.Expr, ast.Assign, ast.Return)) and s.value is not None and pred(ast.unparse(s.value))]
 
     chain = [
         ("unpickle the private model", lambda t: t.startswith("pickle.loads(")),
@@ -181,7 +181,7 @@ def evaluation_pipeline(ctx, repo, rule):
             ctx.check(cfg.dominates(prev, st[0]), rule, of, st[0], "'%s' comes after the previous step on every path" % what, "_objective_fcn: '%s' is not preceded on every path by the previous step of the pipeline" % what, stmt_text="pipeline-order:%s" % what)
         prev = st[0]
     rets = [r for r in own_nodes(of.node) if isinstance(r, ast.Return) and r.value is not None and ast.unparse(r.value) not in ("np.inf",)]
-    ok = len(rets) == 1 and prev is not None and isinstance(prev, ast.Assign) and ast.unparse(rets[0].value) == ast.unparse(prev.targets[0])
+    ok = len(rets) == 1 and prev is not None and ((isinstance(prev, ast.Assign) and ast.unparse(rets[0].value) == ast.unparse(prev.targets[0])) or prev is rets[0])
     ctx.check(ok, rule, of, rets[0] if rets else of.node, "the computed objective is returned", "_objective_fcn does not return the objective it computed", stmt_text="pipeline-return")
     op = repo.func("optimization", "optimize")
     cfg = K.cfg(repo, op)
